@@ -347,6 +347,44 @@ theorem gen_corr_eq (n : ℕ) (evs : List (List ℝ)) :
   · rw [QCGen.corr4_gen]; exact corr4_eq n evs
   · intro h; rw [QCGen.corr6_gen]; exact corr6_eq n evs h
 
+/-- the cumulant the current `__cumulant_flow` hands to `__flow_from_cumulant` (translated from the source, fed with the
+correlators translated from `__calculate_corr`) is `c{2} = <<2>>`, `c{4} = <<4>> − 2<<2>>²`,
+`c{6} = <<6>> − 9<<2>><<4>> + 12<<2>>³` of the model, for every sample of events -/
+theorem gen_cumulant_eq (evs : List (Event ℝ)) :
+    let c2 := Gen.QCumulant.corr2 evs
+    let c4 := Gen.QCumulant.corr4 evs
+    let c6 := Gen.QCumulant.corr6 evs
+    Gen.QCumulant.cum2 c2 c4 c6 = corr2 evs ∧
+    Gen.QCumulant.cum4 c2 c4 c6 = corr4 evs - 2 * corr2 evs ^ 2 ∧
+    Gen.QCumulant.cum6 c2 c4 c6 = corr6 evs - 9 * corr2 evs * corr4 evs + 12 * corr2 evs ^ 3 := by
+  simp only [QCGen.corr2_gen, QCGen.corr4_gen, QCGen.corr6_gen]
+  obtain ⟨h2, h4, h6⟩ := QCGen.cumulant_gen evs
+  obtain ⟨d2, d4, d6⟩ := cumulant_defs evs
+  refine ⟨?_, ?_, ?_⟩
+  · exact (Option.some.inj (h2.symm.trans d2))
+  · exact (Option.some.inj (h4.symm.trans d4))
+  · exact (Option.some.inj (h6.symm.trans d6))
+
+/-- the `imaginary` decision table holds of `__flow_from_cumulant` and `__flow_from_cumulant_differential` as
+translated from the current source (with the table `cumulant_factor_` translated from `__init__`), for every admitted
+order: the generated functions are the model's, so `flow_table`, `flow_pow`, `dflow_table` speak about them -/
+theorem gen_flow_eq (root : ℝ → ℕ → ℝ) (rootp : ℝ → ℕ → ℕ → ℝ) (k : ℕ) (hk : k = 2 ∨ k = 4 ∨ k = 6) (im : Imag) (c d : ℝ) :
+    (Gen.QCumulant.factor k : ℝ) = factor k ∧
+    Gen.QCumulant.flowFromCumulant root k im c = flowFromCumulant root k im c ∧
+    Gen.QCumulant.dflow rootp k im c d = dflow rootp k im c d :=
+  ⟨QCGen.factor_gen k hk, QCGen.flowFromCumulant_gen root k hk im c, QCGen.dflow_gen rootp k im c d⟩
+
+/-- the table, stated directly about the generated function -/
+theorem gen_flow_table (root : ℝ → ℕ → ℝ) (k : ℕ) (hk : k = 2 ∨ k = 4 ∨ k = 6) (c : ℝ) :
+    (0 ≤ Gen.QCumulant.factor k * c →
+      ∀ im, Gen.QCumulant.flowFromCumulant root k im c = .val (root (Gen.QCumulant.factor k * c) k)) ∧
+    (Gen.QCumulant.factor k * c < 0 →
+      Gen.QCumulant.flowFromCumulant root k .negative c = .val (-(root (-(Gen.QCumulant.factor k * c)) k)) ∧
+      Gen.QCumulant.flowFromCumulant root k .zero c = .val 0 ∧
+      Gen.QCumulant.flowFromCumulant root k .nan c = .nan) := by
+  simp only [QCGen.factor_gen k hk, QCGen.flowFromCumulant_gen root k hk]
+  exact flow_table root k c
+
 /-! ### non-vacuity: a concrete non-trivial sample meets the hypotheses -/
 
 example : ∀ φs ∈ ([[0, 1, 2, 3, 4, 5], [0, 1, 2, 3, 4, 5, 6]] : List (List ℝ)), 6 ≤ φs.length := by
